@@ -29,7 +29,8 @@ RULE = ("one run = a history of 8-40 operations (proposal by a new/existing acto
 QUICK_RUNS = 8000
 THOROUGH_RUNS = 500_000
 EXPECT_PROBES = ["replacement", "expiry", "bounds_change", "same_priority_actors", "exclusion_bigger_than_inclusion",
-                 "actor_variant", "expiry_via_timer", "two_component_groups", "identical_resend"]
+                 "actor_variant", "expiry_via_timer", "two_component_groups", "identical_resend", "non_default_max_age",
+                 "bounds_update_checked_at_actor_level"]
 
 IDS = frozenset({8, 18})
 IDS2 = frozenset({28, 38})
@@ -52,7 +53,11 @@ def scenario_object(sim: Sim) -> None:
     actors = _mk_actors(ch, ch.int_between("nactors", 1, 6))
     if len({a["prio"] for a in actors}) < len(actors):
         sim.probe("same_priority_actors")
-    m = Matryoshka(max_proposal_age=timedelta(seconds=pm.MAX_AGE_S))
+    # maximum proposal age: the actor's 60 s, or a non-default one (sub-second, fractional, more than a day)
+    max_age = ch.choice("max_age_s", [60.0, 60.0, 0.5, 90.5, 86400.0 + 5.0])
+    if max_age != 60.0:
+        sim.probe("non_default_max_age")
+    m = Matryoshka(max_proposal_age=timedelta(seconds=max_age))
     ngroups = 1 + ch.weighted("ngroups", [2, 1])
     groups = [IDS, IDS2][:ngroups]
     if ngroups > 1:
@@ -82,7 +87,7 @@ def scenario_object(sim: Sim) -> None:
             m.calculate_target_power(ids, pm.mk_proposal(p, ids), pm.mk_sysbounds(sb, sim.wall()),
                                      must_return_power=bool(ch.draw("must", 2)))
         elif op == 1:
-            dt = ch.choice("dt", [0.5, 1.0, 10.0, 29.0, 30.0, 59.0, 60.0, 60.5, 61.0, 125.0])
+            dt = ch.choice("dt", [0.5, 1.0, 10.0, 29.0, 30.0, 59.0, 60.0, 60.5, 61.0, 125.0]) * (max_age / 60.0)
             now += dt
             sim.ev("advance", "", dt)
             sim.note(f"advance {dt}s -> {now}")
@@ -90,7 +95,7 @@ def scenario_object(sim: Sim) -> None:
             m.drop_old_proposals(now)
             ngone = 0
             for lv in lives:
-                for k in [k for k, p in lv.items() if now - p["t"] > pm.MAX_AGE_S]:
+                for k in [k for k, p in lv.items() if now - p["t"] > max_age]:
                     del lv[k]
                     ngone += 1
                     sim.probe("expiry")
@@ -108,14 +113,23 @@ def scenario_object(sim: Sim) -> None:
         # ---- observe + oracle after every operation, for every group (expiry acts on all of them)
         for gg in range(ngroups):
             if ever[gg]:
-                _check_object(sim, m, groups[gg], lives[gg], sbs[gg], step, gg)
+                _check_object(sim, m, groups[gg], lives[gg], sbs[gg], step, gg, max_age)
 
 
 def _check_object(sim: Sim, m: Any, ids: frozenset[int], live: dict[tuple[int, str], dict[str, Any]],
-                  sb: dict[str, Any], step: int, g: int) -> None:
+                  sb: dict[str, Any], step: int, g: int, max_age: float) -> None:
     ch = sim.ch
     sysb = pm.mk_sysbounds(sb, sim.wall())
+    # first the way the actor's bounds tracker asks ("tell me only if it changed"), then read the current target;
+    # afterwards the explicit must_return_power=True form - all three must tell the same story
+    changed = pm.watts(m.calculate_target_power(ids, None, sysb))
+    current = pm.watts(m.get_target_power(ids))
     got = pm.watts(m.calculate_target_power(ids, None, sysb, must_return_power=True))
+    if got is not None and (current != got or (changed is not None and changed != got)):
+        sim.violation("history_free", {"order": "recalculation_without_proposal"},
+                      f"step {step} group {g}: recalculating without a new proposal answered {changed} (None = unchanged) "
+                      f"and left the current target at {current} W, but the target for the live set and bounds {sb} is "
+                      f"{got} W")
     if got is None:
         sim.violation("envelope", {"what": "no target although proposals exist"}, f"step {step} group {g}")
     assert got is not None
@@ -125,14 +139,14 @@ def _check_object(sim: Sim, m: Any, ids: frozenset[int], live: dict[tuple[int, s
         sim.violation("envelope", {"what": bad.split(" W ")[1][:20] if " W " in bad else bad[:20]},
                       f"step {step} group {g}: {bad}; live={[pm.pstr(p) for p in live.values()]}")
     lv = sorted(live.values(), key=lambda p: (p["prio"], p["actor"]))
-    want = pm.fresh_target(lv, sb, ids, sim.wall()) if lv else 0.0
+    want = pm.fresh_target(lv, sb, ids, sim.wall(), max_age=max_age) if lv else 0.0
     if want != got:
         sim.violation("history_free", {"order": "canonical"},
                       f"step {step} group {g}: target {got} W, but a fresh instance fed only the live proposals "
                       f"{[pm.pstr(p) for p in lv]} with bounds {sb} yields {want} W")
     if len(lv) > 1:
         order = ch.shuffle("fresh_order", list(range(len(lv))))
-        want2 = pm.fresh_target(lv, sb, ids, sim.wall(), order)
+        want2 = pm.fresh_target(lv, sb, ids, sim.wall(), order, max_age=max_age)
         if want2 != got:
             sim.violation("history_free", {"order": "shuffled"},
                           f"step {step} group {g}: target {got} W, fresh instance fed in order {order} yields {want2} W")
@@ -206,6 +220,11 @@ def scenario_actor(sim: Sim) -> None:
                 st["sb_since"].append(sb2)
                 h.publish_bounds(0, sb2)
                 await asyncio.sleep(0.001)
+                if st["sent"] and h.requests and st["check_after"] is None:
+                    # (on_idle has run: sb_idle is the new bounds).  Every change of the target is sent, so the last
+                    # request is the current target; it must be what the live set yields under the new bounds.
+                    sim.probe("bounds_update_checked_at_actor_level")
+                    _check_request(sim, h, st)
             if ch.chance("stall", 0.03):
                 sim.stall(ch.choice("stall_us", [500_000, 1_500_000, 3_000_000]))
                 st["stalled"] = True
